@@ -5,7 +5,7 @@ import "verif/mc/checks/gen"
 
 func main() {
 	gen.Main("C08", "exploration",
-		"seeds = canonical reference encodings of every corpus value tree (as C04) for every corpus type x runtime; mutations, ALL of them: truncation at every offset; at every offset each replacement byte from {00,01,7F,80,FF,b^01,b^80,b+1,b-1,0A,0D} (seeds <= 96 bytes); at every length prefix (top level and one level down) each inflation {+1,x2,0x7F,2^14,2^31-1,2^31,2^32,2^63,2^64-1} with a per-case TotalAlloc budget of 64*len+64KiB; plus every byte string of length <= 3 (thorough 4) over a 16-symbol wire alphabet against every type. Oracle: no panic, no worker death under an 8 GiB address-space limit (a death is attributed to the executing case), allocation within budget, and whenever both the generated Unmarshal and the reference runtime accept the input the two decoded trees are equal. distinct_nontrivial = inputs accepted by both sides whose trees were compared.",
+		"seeds = canonical reference encodings of every corpus value tree (as C04) for every corpus type x runtime; mutations, ALL of them: truncation at every offset; at every offset each replacement byte from {00,01,7F,80,FF,b^01,b^80,b+1,b-1,0A,0D} (seeds <= 96 bytes); at every length prefix (top level and one level down) each inflation {+1,x2,0x7F,2^14,2^31-1,2^31,2^32,2^63,2^64-1} with a per-case TotalAlloc budget of 64*len+64KiB; plus every byte string of length <= 3 (thorough 4) over a 16-symbol wire alphabet against every type. Oracle: no panic, no worker death under an 8 GiB address-space limit (a death is attributed to the executing case), allocation within budget, and whenever both the generated Unmarshal and the reference runtime accept the input the two decoded trees are equal. distinct_nontrivial = inputs accepted by both sides whose trees were compared. ROUND 7 ADDITIONS: every legal encoding variant of every tree is an input as well; after every Unmarshal, accepted or rejected, the caller's buffer holds what it held before.",
 		"the generated code may accept inputs the reference rejects and vice versa: only agreement on commonly accepted inputs is required",
 		"both-accept disagreements caused by already triaged decoding mechanisms (map-entry shape, duplicated singular message field, unsupported extension shapes) are attributed by a structural classifier of the input and matched against known findings; everything else is reported")
 }
